@@ -53,6 +53,45 @@ pub fn drive(args: &[String]) {
     // OpConstant of undeclared / non-numeric type (loadable)
     corpus.push((enc(&[SInst { op: 43, rt: Some(9), rid: Some(1), ops: vec![SOp::one("LiteralBit32", 5)] }]), "const-undeclared"));
     corpus.push((enc(&[SInst { op: 20, rt: None, rid: Some(9), ops: vec![] }, SInst { op: 43, rt: Some(9), rid: Some(1), ops: vec![SOp::one("LiteralBit32", 5)] }]), "const-bool"));
+    // 64-bit literals (OpConstant / OpSpecConstant of 64-bit int and float types, OpSwitch on a 64-bit selector): the module
+    // and every byte prefix of it (a file that ends inside a two-word literal)
+    {
+        let one = |k: &str, w: u32| SOp::one(k, w);
+        let l64 = |lo: u32, hi: u32| SOp { k: "LiteralBit64".into(), w: vec![lo, hi], s: None };
+        let wide = vec![
+            SInst { op: 21, rt: None, rid: Some(1), ops: vec![one("LiteralBit32", 64), one("LiteralBit32", 0)] },
+            SInst { op: 22, rt: None, rid: Some(2), ops: vec![one("LiteralBit32", 64)] },
+            SInst { op: 43, rt: Some(1), rid: Some(3), ops: vec![l64(0x1234_5678, 0x9abc_def0)] },
+            SInst { op: 43, rt: Some(2), rid: Some(4), ops: vec![l64(0, 0x3ff0_0000)] },
+            SInst { op: 50, rt: Some(1), rid: Some(5), ops: vec![l64(0xffff_ffff, 0xffff_ffff)] },
+            SInst { op: 19, rt: None, rid: Some(6), ops: vec![] },
+            SInst { op: 33, rt: None, rid: Some(7), ops: vec![one("IdRef", 6)] },
+            SInst { op: 54, rt: Some(6), rid: Some(8), ops: vec![one("FunctionControl", 0), one("IdRef", 7)] },
+            SInst { op: 248, rt: None, rid: Some(9), ops: vec![] },
+            SInst { op: 251, rt: None, rid: None, ops: vec![one("IdRef", 3), one("IdRef", 9), l64(1, 0), one("IdRef", 9), l64(0, 0x8000_0000), one("IdRef", 9)] },
+            SInst { op: 56, rt: None, rid: None, ops: vec![] }];
+        let wb = enc(&wide);
+        for cut in 20..=wb.len() { corpus.push((wb[..cut].to_vec(), "wide-prefix")); }
+        // extended instructions of the known and of unknown sets, boundary numbers included (0, last, last + 1, far)
+        let st = |s: &str| SOp { k: "LiteralString".into(), w: vec![], s: Some(s.as_bytes().to_vec()) };
+        let mut ext = vec![
+            SInst { op: 11, rt: None, rid: Some(1), ops: vec![st("GLSL.std.450")] }, SInst { op: 11, rt: None, rid: Some(2), ops: vec![st("OpenCL.std")] },
+            SInst { op: 11, rt: None, rid: Some(3), ops: vec![st("NonSemantic.DebugPrintf")] },
+            SInst { op: 19, rt: None, rid: Some(6), ops: vec![] }, SInst { op: 33, rt: None, rid: Some(7), ops: vec![one("IdRef", 6)] },
+            SInst { op: 54, rt: Some(6), rid: Some(8), ops: vec![one("FunctionControl", 0), one("IdRef", 7)] }, SInst { op: 248, rt: None, rid: Some(9), ops: vec![] }];
+        let mut rid = 100;
+        for set in [1u32, 2, 3, 77] {
+            for nn in [0u32, 1, 2, 80, 81, 82, 83, 184, 185, 186, 187, 203, 204, 205, 5000, 0x7fff_ffff, 0x8000_0000, u32::MAX] {
+                ext.push(SInst { op: 12, rt: Some(6), rid: Some(rid), ops: vec![one("IdRef", set), one("LiteralExtInstInteger", nn), one("IdRef", 60)] });
+                rid += 1;
+            }
+        }
+        ext.push(SInst { op: 253, rt: None, rid: None, ops: vec![] });
+        ext.push(SInst { op: 56, rt: None, rid: None, ops: vec![] });
+        corpus.push((enc(&ext), "extinst"));
+        // one file per number too, so that one crash does not hide the others
+        for k in 0..72 { let mut one_ext = ext[..7].to_vec(); one_ext.push(ext[7 + k].clone()); one_ext.extend(ext[ext.len() - 2..].iter().cloned()); corpus.push((enc(&one_ext), "extinst")); }
+    }
     // OpSpecConstantOp embedding every opcode number with 0..5 operand words (sampled)
     let mut opnums: Vec<u32> = g.insts.keys().cloned().collect();
     opnums.extend([9u32, 65535, 0x0001_003d]);
